@@ -16,6 +16,7 @@ EXHAUSTIVE = [
     ("focus_card", "ProtoShapes_focus_card.cfg", ("quick", "thorough")),
     ("focus_opt", "ProtoShapes_focus_opt.cfg", ("quick", "thorough")),
     ("focus_ann", "ProtoShapes_focus_ann.cfg", ("quick",)),
+    ("focus_rec3", "ProtoShapes_focus_rec3.cfg", ("quick", "thorough")),
     ("pair_ann", "ProtoShapes_pair_ann.cfg", ("quick", "thorough")),
     ("graph3", "ProtoShapes_graph3.cfg", ("quick", "thorough")),
     ("graph2c", "ProtoShapes_graph2c.cfg", ("quick", "thorough")),
